@@ -240,14 +240,26 @@ func (w *wr) Write(p []byte) (int, error) {
 func (s *Store) LinkSystem() *ipld.LinkSystem {
 	ls := cidlink.DefaultLinkSystem()
 	ls.TrustedStorage = true
-	ls.StorageReadOpener = func(_ linking.LinkContext, l datamodel.Link) (io.Reader, error) {
+	ls.StorageReadOpener = func(lc linking.LinkContext, l datamodel.Link) (io.Reader, error) {
 		cl, ok := l.(cidlink.Link)
 		if !ok {
 			return nil, fmt.Errorf("verif: not a cid link")
 		}
+		// like a network- or blockstore-backed source, this one honours the
+		// context it is given: a load under a cancelled context fails
+		if lc.Ctx != nil {
+			if err := lc.Ctx.Err(); err != nil {
+				return nil, fmt.Errorf("verif: load of %s under a finished context: %w", cl.Cid, err)
+			}
+		}
 		return s.read(cl.Cid)
 	}
-	ls.StorageWriteOpener = func(_ linking.LinkContext) (io.Writer, linking.BlockWriteCommitter, error) {
+	ls.StorageWriteOpener = func(lc linking.LinkContext) (io.Writer, linking.BlockWriteCommitter, error) {
+		if lc.Ctx != nil {
+			if err := lc.Ctx.Err(); err != nil {
+				return nil, nil, fmt.Errorf("verif: write under a finished context: %w", err)
+			}
+		}
 		s.mu.Lock()
 		seq := s.opens
 		s.opens++
